@@ -540,6 +540,7 @@ def bounded(run):
     nscen = 240 if run.tier == "quick" else 3000
     jobs = [dict(seed=run.seed * 101 + k, count=nscen // 12) for k in range(12)]
     res, errs = native.pmap("contracts.C04", "nat_sweep", jobs)
+    run.worker_errors(errs, len(jobs))
     ev = sum(r["evaluations"] for r in res if r and "_error" not in r)
     fails = [f for r in res if r and "_error" not in r for f in r["failures"]]
     run.bounded_result("compiled derivatives under frame rotations and two-fold relabelling of grain subsets (instantaneous rates, rounding level)", f"{MOD}.derivatives",
